@@ -59,6 +59,7 @@ ITCFG = ("iters", "config_immutable", {})
 ENCW = ("emit", "encode_writes", {})
 MODESET = ("modes", "mode_setters", {})
 MODEHELP = ("modes", "mode_helpers", {})
+FINISH = ("modes", "finish_resets_priority_mode", {})
 SKIPPASS = ("iters", "skip_passthrough", {})
 FLF = ("special", "func_level_first", {})
 KMIX = ("mutators", "kind_mix", {})
@@ -147,37 +148,37 @@ PROPS = {
              "R-LOCALS (owner, shape on every path, caller arguments), R-TYPE-TABLE.",
              "nothing beyond the trusted base for the index formula; the encoded declaration relies on C01's tables.",
              "who-may-write + path enumeration"),
-    "C15": P([MODEHELP, MODESET, FULLIT, MODEF, ("modes", "has_instr_cover", {}), ("modes", "emit_order", {}), SIB, INJAT],
+    "C15": P([FINISH, MODEHELP, MODESET, FULLIT, MODEF, ("modes", "has_instr_cover", {}), ("modes", "emit_order", {}), SIB, INJAT],
              "structural whole of the plain-mode lowering: mode→list dispatch, has_instr coverage, emission order on every path, sibling agreement of the injection APIs",
              "R-MODE-FIELD, R-HAS-INSTR, R-EMIT-ORDER, R-SIBLING(instrumenter), R-INJECT-AT.",
              "textual equality on concrete programs (a consequence).",
              "path enumeration over structured HIR + sibling effect summaries"),
-    "C17": P([MODEHELP, FLF, ("misc", "type_dedup", {}), LCG, WALK, SPFLAG, CLEARCOH, MODEF, BLOCKT, DETAILS, CLEARS, ("special", "entry_preserve", {})],
+    "C17": P([FINISH, MODEHELP, FLF, ("misc", "type_dedup", {}), LCG, WALK, SPFLAG, CLEARCOH, MODEF, BLOCKT, DETAILS, CLEARS, ("special", "entry_preserve", {})],
              "necessary: exit probes cover every return/throw/trap operator, wrapper opened/closed once, entry at idx 0, entry body preserved",
              "R-BLOCK-TABLES(4), R-RESOLVER-DETAILS, R-RESOLVE-CLEARS, R-ENTRY-PRESERVE.",
              "firing counts at run time.",
              "ADT-driven table checks + path enumeration"),
-    "C18": P([SIB, MODEHELP, LCG, WALK, SPFLAG, CLEARCOH, MODEF, BLOCKT, DETAILS, CLEARS],
+    "C18": P([ENCW, FINISH, SIB, MODEHELP, LCG, WALK, SPFLAG, CLEARCOH, MODEF, BLOCKT, DETAILS, CLEARS],
              "necessary: accepting predicate, resolver and driver agree on {Block,Loop,If,Else}; body placed After the opener; list cleared",
              "R-BLOCK-TABLES(2), R-RESOLVER-DETAILS, R-RESOLVE-CLEARS.",
              "firing semantics.",
              "table agreement"),
-    "C19": P([SIB, MODEHELP, LCG, SAVESIB, WALK, SPFLAG, CLEARCOH, MODEF, BLOCKT, DETAILS, ("misc", "scoped_pending", {}), CLEARS],
+    "C19": P([FINISH, SIB, MODEHELP, LCG, SAVESIB, WALK, SPFLAG, CLEARCOH, MODEF, BLOCKT, DETAILS, ("misc", "scoped_pending", {}), CLEARS],
              "necessary: every opener pushed, exit bodies scoped to their block and resolved Before the closing else/end",
              "R-BLOCK-TABLES(1,2), R-RESOLVER-DETAILS, R-SCOPED-PENDING, R-RESOLVE-CLEARS.",
              "firing semantics.",
              "table agreement + container scoping analysis"),
-    "C20": P([MODEHELP, ("misc", "if_chain", {}), LCG, SAVESIB, SCOPED, WALK, SPFLAG, CLEARCOH, MODEF, BLOCKT, DETAILS, ("misc", "flag_reset", {}), ("misc", "dead_after_sink", {}), CLEARS],
+    "C20": P([FINISH, MODEHELP, ("misc", "if_chain", {}), LCG, SAVESIB, SCOPED, WALK, SPFLAG, CLEARCOH, MODEF, BLOCKT, DETAILS, ("misc", "flag_reset", {}), ("misc", "dead_after_sink", {}), CLEARS],
              "necessary: branch tables agree, target id arithmetic, flag protocol (set/reset), flag reset inside guard, no After code on the final end",
              "R-BLOCK-TABLES(1,3), R-RESOLVER-DETAILS, R-FLAG-RESET, R-DEAD-AFTER-SINK, R-RESOLVE-CLEARS.",
              "exactly-once at run time.",
              "table agreement + path enumeration"),
-    "C21": P([MODESET, SIB, MODEHELP, LCG, WALK, SPFLAG, CLEARCOH, MODEF, BLOCKT, DETAILS, CLEARS, CLEARCOH],
+    "C21": P([SCOPED, FINISH, MODESET, SIB, MODEHELP, LCG, WALK, SPFLAG, CLEARCOH, MODEF, BLOCKT, DETAILS, CLEARS, CLEARCOH],
              "necessary: opener stack, delete_block bookkeeping, retain_end, every visited instruction emptied while deleting",
              "R-BLOCK-TABLES(1,2), R-RESOLVER-DETAILS, R-RESOLVE-CLEARS, R-CLEAR-COHERENT.",
              "textual result.",
              "table agreement + guarded-write analysis"),
-    "C22": P([MODEHELP, MODESET, ("special", "block_tables", {"openers_clause": False}), LCG, WALK, SAVESIB, SCOPED, ("special", "special_flag", {}), CLEARS, ("special", "entry_preserve", {}), MODEF, SIB, ("misc", "dead_after_sink", {}), ("modes", "has_instr_cover", {}), CLEARCOH, INJAT],
+    "C22": P([FINISH, MODEHELP, MODESET, ("special", "block_tables", {"openers_clause": False}), LCG, WALK, SAVESIB, SCOPED, ("special", "special_flag", {}), CLEARS, ("special", "entry_preserve", {}), MODEF, SIB, ("misc", "dead_after_sink", {}), ("modes", "has_instr_cover", {}), CLEARCOH, INJAT],
              "necessary set: the is-special result is never dropped, lowered lists are cleared with the matching mode, the saved entry body is never overwritten, mode→list dispatch, no dead After sink",
              "R-SPECIAL-FLAG, R-RESOLVE-CLEARS, R-ENTRY-PRESERVE, R-MODE-FIELD, R-SIBLING(instrumenter), R-DEAD-AFTER-SINK, R-HAS-INSTR, R-CLEAR-COHERENT, R-INJECT-AT.",
              "that every accepted special injection appears in the bytes for every body.",
@@ -217,7 +218,7 @@ PROPS = {
              "R-EMIT-MAPPED(names), R-NAME-DISPATCH, R-NAME-PAIRING, R-IMPORT-ORDINAL.",
              "name equality over histories.",
              "sink provenance"),
-    "C30": P([MAPARGS, ("fields", "struct_copy_pairing", {}), CONSTEXPR, TT_BOTH, ("misc", "additions", {}), ("mutators", "swap_flows", {}), ("mutators", "who_may_call", {}), FRESH],
+    "C30": P([EM(("memory",)), MAPARGS, ("fields", "struct_copy_pairing", {}), CONSTEXPR, TT_BOTH, ("misc", "additions", {}), ("mutators", "swap_flows", {}), ("mutators", "who_may_call", {}), FRESH],
              "bit-exact constant expressions, exact types, parameter→field flows of the module-level adders",
              "R-CONSTEXPR-TABLE, R-TYPE-TABLE incl. the wasmparser writer used by add_global, R-ADD-FLOW, R-SWAP, R-WHOMAYCALL, R-FRESH-ID.",
              "decoded equality of whole modules.",
